@@ -9,6 +9,8 @@ import (
 	"encoding/xml"
 	"fmt"
 	htemplate "html/template"
+	"io"
+	"log"
 	"net/http"
 	"net/http/httptest"
 	"net/url"
@@ -200,7 +202,7 @@ func c14Forms(c *Ctx) {
 			ImplSpecOK: specOK,
 		})
 	}
-	idpSrv, _ := samlidp.New(samlidp.Options{URL: mustURL("https://idp.example.com"), Key: fix.RSAKey("rsa_a"), Certificate: fix.Cert("rsa_a"), Store: &samlidp.MemoryStore{}})
+	idpSrv, _ := samlidp.New(samlidp.Options{URL: mustURL("https://idp.example.com"), Key: fix.RSAKey("rsa_a"), Certificate: fix.Cert("rsa_a"), Store: &samlidp.MemoryStore{}, Logger: log.New(io.Discard, "", 0)})
 	for i, hu := range hs {
 		hr := hs[(i*7+3)%len(hs)]
 		for kind := int64(0); kind <= 5; kind++ {
